@@ -1,4 +1,62 @@
-import ErgoModel.Exec
+/-
+  C19 — The human list is a complete, well-formed picture of the same state.
+  Model: ErgoModel/Render.lean.  Display width is go-runewidth's per-character width (cells); text is assumed free of
+  escape sequences and of multi-rune grapheme clusters for the width statements (the check measures real output too).
+-/
+import ErgoProofs.Lemmas.RenderLayout
+import ErgoProofs.Lemmas.RenderRows
+import ErgoProofs.Lemmas.ReachInv
 namespace Ergo
-theorem C19_placeholder : True := trivial
+open Render
+
+/-- every row fits the terminal and ends with its item's id in the same right-hand column: for a terminal wide enough to hold
+    prefix+icon, the gaps, the id and the margin (W ≥ base + |id| + 6), whatever title, claimant and blocker text contain,
+    the row is exactly W−2 columns wide and is a left part of width W−2−|id| followed by the id -/
+theorem C19_row_width (ell : Cell) (hell : ell.w = 1) (r : RowIn) (hid : ∀ c ∈ r.id, c.w = 1)
+    (hW : r.width ≥ visLen (singleLine r.base) + r.id.length + 6) (hbase : singleLine r.base = r.base) :
+    ∃ left, formatTreeLine ell r = left ++ r.id ∧ visLen left = r.width - 2 - r.id.length ∧
+      visLen (formatTreeLine ell r) = r.width - 2 :=
+  row_width ell hell r hid hW hbase
+
+/-- one item, one row: no newline, tab or other control character of a title / claimant / blocker text reaches the row -/
+theorem C19_single_row (ell : Cell) (hell : isControl ell.ch = false) (r : RowIn)
+    (hbase : ∀ c ∈ r.base, isControl c.ch = false) (hid : ∀ c ∈ r.id, isControl c.ch = false) :
+    ∀ c ∈ formatTreeLine ell r, isControl c.ch = false :=
+  row_no_control ell hell r hbase hid
+
+/-- truncation cuts on character boundaries (the output is a prefix of the text plus at most the ellipsis), so it is valid
+    UTF-8 whenever the input is; blocker names are abbreviated to whole characters as well -/
+theorem C19_whole_characters (ell : Cell) (s : Str) (m : Int) (lens : List Nat) (maxLen : Nat) :
+    (truncateToWidth ell s m = [] ∨ truncateToWidth ell s m = s ∨ ∃ p, p <+: s ∧ truncateToWidth ell s m = p ++ [ell]) ∧
+    abbreviateKeep lens maxLen ≤ lens.length :=
+  ⟨truncate_prefix ell s m, abbreviateKeep_le lens maxLen⟩
+
+/-- sibling order (Kahn) loses nobody and puts dependencies first -/
+theorem C19_sibling_order_complete (g : Graph) (tasks : List Task) (hnd : (tasks.map (·.id)).Nodup) (hac : Acyclic g.deps) :
+    (topoSort g tasks).Perm tasks :=
+  topoSort_perm g tasks hnd hac
+
+/-- with the all view (`list --all`) every live item of every reachable store appears on exactly one row -/
+theorem C19_all_complete (log : List Event) (h : ReachOK log) :
+    ∃ g, replay log = .ok g ∧ ((rows g .all).map (·.id)).Perm (g.tasks.map (·.id)) := by
+  obtain ⟨g, hr, hinv⟩ := reach_replay log h
+  exact ⟨g, hr, rows_all g hinv.ok.wf hinv.i07 hinv.i14 hinv.ids⟩
+
+/-- the default view shows every active task exactly once -/
+theorem C19_default_shows_active_once (log : List Event) (h : ReachOK log) :
+    ∃ g, replay log = .ok g ∧ ∀ t ∈ g.tasks, t.isEpic = false → t.st.closed = false → ((rows g .active).map (·.id)).count t.id = 1 := by
+  obtain ⟨g, hr, hinv⟩ := reach_replay log h
+  exact ⟨g, hr, fun t ht hne hst => rows_active g hinv.ok.wf hinv.i07 hinv.i14 hinv.ids t ht hne hst⟩
+
+/-- the ready view (`list --ready`) shows exactly the ready tasks -/
+theorem C19_ready_exact (log : List Event) (h : ReachOK log) :
+    ∃ g, replay log = .ok g ∧ ∀ t ∈ g.tasks, t.isEpic = false → (t.id ∈ (rows g .ready).map (·.id) ↔ isReady g t = true) := by
+  obtain ⟨g, hr, hinv⟩ := reach_replay log h
+  exact ⟨g, hr, fun t ht hne => rows_ready g hinv.ok.wf hinv.i07 hinv.i14 hinv.ids t ht hne⟩
+
+/-- children sit under their own epic with a tree glyph while root rows have none -/
+theorem C19_glyphs (g : Graph) (v : View) (hwf : WF g) (h14 : Inv14 g) (hid : ∀ t ∈ g.tasks, t.id ≠ "") (r : Row) (hr : r ∈ rows g v) :
+    ∃ t ∈ g.tasks, t.id = r.id ∧ (r.child = true ↔ (t.isEpic = false ∧ t.epicId ≠ "")) :=
+  rows_child_iff g v hwf h14 hid r hr
+
 end Ergo
